@@ -212,6 +212,10 @@ def axioms_for(atoms):
             h = Poly.atom(a)
             out.append((">=", x - h * Poly.const(2)))  # 2h <= x
             out.append((">=", h * Poly.const(2) + 1 - x))  # x <= 2h+1
+        elif a[0] == "chunklen":  # length of a chunk produced by slice.chunks(n): 1 <= len <= n
+            n = a[2]
+            out.append((">=", n - Poly.atom(a)))
+            out.append((">=", Poly.atom(a) - Poly.const(1)))
         elif a[0] == "and1":  # x & 1  (with shr1(x): x = 2*shr1 + and1)
             b = Poly.atom(a)
             out.append((">=", Poly.const(1) - b))
@@ -317,7 +321,7 @@ def _prove(goal, facts, budget=1500):
     # atoms nested inside interpreted atoms
     more = set()
     for a in atoms:
-        if isinstance(a, tuple) and a[0] in ("min", "div", "shr1", "and1"):
+        if isinstance(a, tuple) and a[0] in ("min", "div", "shr1", "and1", "chunklen"):
             for x in a[1:]:
                 if isinstance(x, Poly):
                     more |= x.atoms()
@@ -339,7 +343,10 @@ def _prove(goal, facts, budget=1500):
                 if prove_ge0(x - z, base_facts, 2, None, _Budget(80)) and prove_ge0(y - z, base_facts, 2, None, _Budget(80)):
                     facts.append((">=", Poly.atom(a) - z))
     if rel == ">=":
-        return prove_ge0(p, facts, _budget=_Budget(budget))
+        if prove_ge0(p, facts, _budget=_Budget(budget)):
+            return True
+        # integer rounding: 2p + 1 >= 0 implies p >= 0 over the integers
+        return prove_ge0(p * Poly.const(2) + Poly.const(1), facts, 4, None, _Budget(budget))
     if rel == "==":
         if not p.t:
             return True
